@@ -160,8 +160,9 @@ func classifyRefFailure(c *Case, impl, ref Canon) []string {
 	if tieSensitive(c.Query) && topkTie(c) {
 		tags = append(tags, "topk-tie")
 	}
+	// only for explicitly overflowing magnitudes (a literal of the order 1e300 in the query)
 	if (strings.Contains(c.Query, "stddev") || strings.Contains(c.Query, "stdvar") || strings.Contains(c.Query, "avg")) &&
-		(hasNonFinite(impl) || hasNonFinite(ref)) {
+		strings.Contains(c.Query, "1e30") && (hasNonFinite(impl) || hasNonFinite(ref)) {
 		tags = append(tags, "overflow-in-mean-or-variance")
 	}
 	return tags
